@@ -72,6 +72,7 @@ type Frame struct {
 	curInstr   ssa.Instruction
 	qualOrd    map[string]int
 	secHeap    Heap // heap right after the last "havoc" site clause (start of the critical section)
+	preCall    Heap // heap just before the current call (before(e) in "after" site clauses)
 	unrolling  map[int]bool
 	heap       Heap // current heap while translating a block
 	oldHeap    Heap // heap for old() in spec expressions (entry heap of the top function / callee)
